@@ -74,6 +74,7 @@ pub fn dispatch(which: &str, v: &Value, case: &Value) -> Value {
     match which {
         "c10_header" => c10_header(v),
         "c10_rule_a" => c10_rule_a(v),
+        "c10_atomic" => c10_atomic(v),
         "c18_perm" => c18_perm(v),
         "c18_sep" => c18_sep(v),
         "c01_tok" => c01_tok(v),
@@ -125,6 +126,28 @@ fn c10_header(v: &Value) -> Value {
     match r {
         Ok(ok) => json!({"reproduced": false, "deserialize_ok": ok, "input": data}),
         Err(e) => json!({"reproduced": true, "panic": panic_msg(e), "input": data, "api": "Engine::deserialize"}),
+    }
+}
+/// a failed load must leave the engine as it was: enabled tags, answers, and a following tag operation
+fn c10_atomic(v: &Value) -> Value {
+    let buf = bytes(&v["buf"]);
+    let len = (u(&v["len"]) as usize).min(buf.len());
+    let data = buf[..len].to_vec();
+    let mut e = Engine::from_rules(["adv$tag=a", "bdv"], Default::default());
+    e.use_tags(&["a"]);
+    let req = Request::new("https://x.com/adv", "https://y.com/", "script").unwrap();
+    let before = (e.tag_exists("a"), e.check_network_request(&req).matched);
+    let r = catch_unwind(AssertUnwindSafe(|| e.deserialize(&data).is_ok()));
+    match r {
+        Err(p) => json!({"reproduced": true, "panic": panic_msg(p), "input": data}),
+        Ok(true) => json!({"reproduced": false, "note": "buffer loaded successfully", "input": data}),
+        Ok(false) => {
+            let after = (e.tag_exists("a"), e.check_network_request(&req).matched);
+            e.enable_tags(&["zz"]);
+            let after_op = (e.tag_exists("a"), e.check_network_request(&req).matched);
+            json!({"reproduced": before != after || before != after_op, "before": format!("{:?}", before), "after_failed_load": format!("{:?}", after), "after_enable_other_tag": format!("{:?}", after_op), "input": data,
+                   "api": "Engine::deserialize (Err) + tag_exists / check_network_request / enable_tags"})
+        }
     }
 }
 fn c10_rule_a(v: &Value) -> Value {
